@@ -10,11 +10,15 @@ type c20event struct {
 
 func (m *Machine) c20mismatch(msg string) {
 	ob := Obligation{Label: "C20.1 repeated execution in the same process (other map order, other clock): same course of events", Kind: "assert"}
-	v, model := m.sol.Check(m.tb, nil, m.inputTerms())
-	if v == Sat {
+	v, model := m.sol.CheckHard(m.tb, nil, m.inputTerms())
+	switch v {
+	case Sat:
 		ob.Verdict = "violated"
 		ob.Model = m.extractModel(model)
-	} else {
+	case Unsat:
+		// the path was kept because a branch could not be decided in time; it is infeasible
+		panic(pathEnd{kind: "assume"})
+	default:
 		ob.Verdict = "unknown"
 	}
 	ob.Pos = msg
